@@ -76,6 +76,8 @@ type opx struct {
 	amt      *big.Int
 	// kTree
 	tree *fnode
+	// generator only: owner whose coins a transferFrom / burnFrom is to spend
+	forceFrom *common.Address
 }
 
 type obsx struct {
@@ -345,6 +347,57 @@ func (w *world) genOp(r *Rng, s *snap, txMode bool) *opx {
 			o.fake = true
 		}
 	}
+	// spending calls: most of the time by a caller that really holds an allowance (unlimited ones preferred), so that
+	// approve-spend-respend sequences and the unlimited case are reached often
+	if (o.kind == kTransferFrom || o.kind == kBurnFrom) && r.Chance(65) {
+		type pr struct {
+			owner  common.Address
+			via    int
+			sender common.Address
+		}
+		var some, unlimited []pr
+		for j, sp := range w.uni {
+			var route *pr
+			switch {
+			case sp == w.proxyS:
+				route = &pr{via: viaStrict, sender: o.sender}
+			case sp == w.proxyL:
+				route = &pr{via: viaLenient, sender: o.sender}
+			case !txMode:
+				for _, e := range eoas {
+					if e == sp {
+						route = &pr{via: viaDirect, sender: sp}
+					}
+				}
+			}
+			if route == nil {
+				continue
+			}
+			for i, owner := range w.uni {
+				if i == j || s.allow[i][j].Sign() <= 0 {
+					continue
+				}
+				x := *route
+				x.owner = owner
+				some = append(some, x)
+				if s.allow[i][j].Cmp(max256) == 0 {
+					unlimited = append(unlimited, x)
+				}
+			}
+		}
+		pick := some
+		if len(unlimited) > 0 && r.Chance(50) {
+			pick = unlimited
+		}
+		if len(pick) > 0 {
+			x := pick[r.Intn(len(pick))]
+			o.via, o.sender, o.fake = x.via, x.sender, false
+			if o.via != viaDirect && !txMode {
+				o.sender = eoas[r.Intn(len(eoas))]
+			}
+			o.forceFrom = &x.owner
+		}
+	}
 	switch o.via {
 	case viaDirect:
 		o.caller = o.sender
@@ -382,6 +435,9 @@ func (w *world) genArgs(r *Rng, s *snap, o *opx) {
 		o.w = []*big.Int{to, w.pickAmount(r, s, o.caller, o.caller, denom)}
 	case kTransferFrom:
 		from := w.pickAddrWord(r, granters)
+		if o.forceFrom != nil {
+			from = addrZ(*o.forceFrom)
+		}
 		to := w.pickAddrWord(r, nil)
 		o.w = []*big.Int{from, to, w.pickAmount(r, s, lowAddr(from), o.caller, denom)}
 	case kApprove:
@@ -390,7 +446,7 @@ func (w *world) genArgs(r *Rng, s *snap, o *opx) {
 		switch r.Intn(8) {
 		case 0:
 			v = big.NewInt(0)
-		case 1:
+		case 1, 7:
 			v = new(big.Int).Set(max256)
 		case 2:
 			v = Bsub(max256, 1)
@@ -404,6 +460,9 @@ func (w *world) genArgs(r *Rng, s *snap, o *opx) {
 		o.w = []*big.Int{w.pickAmount(r, s, o.caller, o.caller, denom)}
 	case kBurnFrom:
 		from := w.pickAddrWord(r, granters)
+		if o.forceFrom != nil {
+			from = addrZ(*o.forceFrom)
+		}
 		o.w = []*big.Int{from, w.pickAmount(r, s, lowAddr(from), o.caller, denom)}
 	case kMalformed:
 		switch r.Intn(5) {
